@@ -716,7 +716,18 @@ def _solve_vc(i):
         if r0["status"] == "discharged":
             r0["backend"] = str(r0.get("backend")) + "(without UF facts)"
             r = r0
-        else:
+        if r is None:
+            # stage 1b: add only the *small* UF facts (bounds, exp/sqrt axiom instances over abstracted terms); the large
+            # definitional equalities of abstracted polynomials stay out
+            from .values import _term_size
+
+            small = [a for a in vc["pc"] if a.get_id() in ids and _term_size(a, 120) < 120]
+            if small and len(small) < len(ids):
+                r0b = smt.prove(core + small, vc["goal"], timeout_ms=8000, second_opinion=False, retries=False)
+                if r0b["status"] == "discharged":
+                    r0b["backend"] = str(r0b.get("backend")) + "(small UF facts only)"
+                    r = r0b
+        if r is None:
             # second stage: UF facts connected to the goal / path condition through shared symbols (relevance closure);
             # facts about unrelated terms (other harmonics, constant-only terms) only slow the nonlinear solver down
             from .interp import z_free_consts
